@@ -72,7 +72,10 @@ func (w *World) Structural() []structural {
 					if callee := c.StaticCallee(); callee != nil {
 						q := qualifiedName(callee)
 						if fileMutators[q] {
-							writers = append(writers, FuncKey(f)+" calls "+q)
+							// a helper without contract that is only called statically is part of its callers
+							for _, owner := range w.inlineOwners(f, 0) {
+								writers = append(writers, FuncKey(owner)+" calls "+q)
+							}
 							wpos = w.Fset.Position(in.Pos())
 						}
 						if ambientReads[q] || strings.HasPrefix(q, "math/rand.") || (strings.HasPrefix(q, "runtime.") && !strings.HasPrefix(q, "runtime.FuncForPC")) {
@@ -1016,4 +1019,38 @@ func basicOrBasicTypeParam(t types.Type) bool {
 		}
 	}
 	return true
+}
+
+// inlineOwners: the functions verified on their own in whose bodies f is executed - f itself unless f is a helper without
+// contract that is only ever called statically, in which case the owners of its callers (closures count as their parent).
+func (w *World) inlineOwners(f *ssa.Function, depth int) []*ssa.Function {
+	top := f
+	for top.Parent() != nil {
+		top = top.Parent()
+	}
+	if depth > 4 || !w.InlineOnly(top) {
+		return []*ssa.Function{f}
+	}
+	seen := map[*ssa.Function]bool{}
+	var out []*ssa.Function
+	for _, g := range w.repoFuncsSorted() {
+		for _, b := range g.Blocks {
+			for _, in := range b.Instrs {
+				ci, ok := in.(ssa.CallInstruction)
+				if !ok || ci.Common().IsInvoke() || ci.Common().StaticCallee() != top {
+					continue
+				}
+				for _, o := range w.inlineOwners(g, depth+1) {
+					if !seen[o] {
+						seen[o] = true
+						out = append(out, o)
+					}
+				}
+			}
+		}
+	}
+	if len(out) == 0 {
+		return []*ssa.Function{f}
+	}
+	return out
 }
